@@ -342,6 +342,15 @@ func CheckSession(c SessCase) (vs hx.Vs, nontrivial bool, classes []string) {
 		}()
 		select {
 		case r := <-ch:
+			if r.err != nil && !errors.Is(r.err, pgsess.ErrTimeout) {
+				// the harness closes the connections on the first proxy error, as acra-server does: the error that
+				// ended the session arrives right after
+				select {
+				case pe := <-s.ProxyErrs:
+					return r.rep, &pe, nil
+				case <-time.After(2 * time.Second):
+				}
+			}
 			return r.rep, nil, r.err
 		case pe := <-s.ProxyErrs:
 			s.HangUp()
